@@ -23,7 +23,7 @@ RULE = ("connected netlists (a spanning chain over all modules plus random nets 
         "rectangles == originals; hard modules translated rigidly; areas and nets unchanged.  non-trivial = some movable disc has "
         "a diameter > 30% of the shorter side; distinct = distinct (design, trials, seed).")
 ASSUMPTIONS = [
-    "every module is on some net and the netlist is connected (the tool's precondition); no terminals",
+    "every module is on some net and the netlist is connected (the tool's precondition); terminals only as fixed pins (on the die border)",
     "the random start is an input: random.seed(s) with s generated, so 'all seeds' is sampled",
     "an exception raised by the placement on such a netlist counts as 'does not position the modules'",
 ]
@@ -41,6 +41,8 @@ def build_doc(c):
                 d["center"] = [X.num(m["c"][0] * u / 2), X.num(m["c"][1] * u / 2)]
         elif m["kind"] == "hard":
             d = {"hard": True, "rectangles": [D.rect_entry(r, unit) for r in m["rects"]]}
+        elif m["kind"] == "pin":  # a fixed terminal (I/O pin), typically on the border of the die
+            d = {"terminal": True, "fixed": True, "center": [X.num(m["c"][0] * u / 2), X.num(m["c"][1] * u / 2)]}
         else:
             d = {"fixed": True, "rectangles": [D.rect_entry(r, unit) for r in m["rects"]]}
         mods[m["name"]] = d
@@ -60,6 +62,7 @@ def run_spectral(c):
     except Exception as e:
         raise RuntimeError("generator produced a rejected netlist: %s: %s\n%s" % (type(e).__name__, e, c))
     before = {m.name: (m.area(), dict(m.area_regions), rect_state(m), m.is_soft, m.is_hard, m.is_fixed) for m in sp.modules}
+    pins0 = {m.name: (m.center.x, m.center.y) for m in sp.modules if m.is_terminal}
     nets0 = [([b.name for b in e.modules], e.weight) for e in sp.edges]
     trials = int(c["trials"])
     random.seed(int(c["seed"]))
@@ -85,6 +88,9 @@ def run_spectral(c):
         if fixed0:
             if rs != rs0:
                 raise Violation("%s: fixed module %s moved: %s -> %s" % (what, m.name, rs0, rs), "fixed-moved")
+            if m.name in pins0:
+                if m.center is None or abs(m.center.x - pins0[m.name][0]) > tol or abs(m.center.y - pins0[m.name][1]) > tol:
+                    raise Violation("%s: fixed terminal %s moved from %s to %s" % (what, m.name, pins0[m.name], m.center), "fixed-moved")
             continue
         radius = math.sqrt(a0 / math.pi)
         if hard0:
@@ -117,6 +123,8 @@ def run_spectral(c):
         cls.append("hard-movable")
     if "fixed" in kinds:
         cls.append("with-fixed")
+    if any(m["kind"] == "pin" and 0 in m["c"] for m in c["modules"]):
+        cls.append("fixed-pin-on-left-or-bottom-border")
     if c.get("tight"):
         cls.append("tight-fit")
     if max(W, H) >= 5 * min(W, H):
@@ -137,6 +145,10 @@ def design_s(draw):
     pack = draw(L.packing(W, H, 0, nfix, max(1, short // 3))) if nfix else []
     for k, r in enumerate(pack[:nfix]):
         mods.append(dict(name="F%d" % k, kind="fixed", rects=[r]))
+    for k in range(draw(st.sampled_from([0, 0, 1, 2]))):
+        side = draw(_i(0, 3))
+        t = draw(_i(0, 2 * (H if side in (0, 2) else W)))
+        mods.append(dict(name="P%d" % k, kind="pin", c=[0, t] if side == 0 else [t, 0] if side == 1 else [2 * W, t] if side == 2 else [t, 2 * H]))
     nmov = draw(_i(4, 8))
     tight = False
     for i in range(nmov):
@@ -185,7 +197,7 @@ def general_position(mods, unit):
     u = Fr(unit)
     pts = []
     for m in mods:
-        if m["kind"] == "fixed":
+        if m["kind"] in ("fixed", "pin"):
             continue
         if m["kind"] == "soft":
             if m["c"] is None:
@@ -210,4 +222,4 @@ def general_position(mods, unit):
 
 def subchecks():
     return [Sub("placements", run_spectral, strategy=design_s(), n_quick=1400, n_thorough=40000, shrink_quick=True,
-                required=("trials=0", "trials=1", "trials=5", "hard-movable", "with-fixed", "tight-fit", "elongated-die"))]
+                required=("trials=0", "trials=1", "trials=5", "hard-movable", "with-fixed", "tight-fit", "elongated-die", "fixed-pin-on-left-or-bottom-border"))]
